@@ -204,7 +204,8 @@ def run(case, out):
         bix.close()
         old = snapshot(base)
         if sorted(old["stored"]) != sorted(model.keys()):
-            raise HarnessError("base state differs from model")
+            out.fail("c02.committed_base_differs_from_model", {"got": sorted(old["stored"])[:12], "expected": sorted(model.keys())[:12]})
+            return
         # un-crashed run with counting: number of boundaries, new state
         dry = os.path.join(d, "dry")
         shutil.copytree(base, dry)
